@@ -73,7 +73,7 @@ def session_lines(rng, kind, cfg_valid_dir, bad_dir, cfgA, nodesA, fi):
         ls += [up(model.build_msg((0, 0, 0), 0, C('MSG_SYS_PONG'), bytes([i]))) for i in range(rng.randrange(0, 10))]
         return ls, 0
     if kind == 'silent':
-        ls += ['bus mode silent', 'debug 0', f'start {cfg_valid_dir} {fi}']
+        ls += ['bus mode silent'] + ([f'bus idlefill {rng.choice(["fe", "55"])}'] if rng.random() < 0.5 else []) + ['debug 0', f'start {cfg_valid_dir} {fi}']
         return ls, 1
     if kind == 'silentnew':
         # the interface never answers the magic request, but announces a configured track output (MSG_NODE_NEW) while the library is probing:
@@ -140,7 +140,11 @@ def gen_scenario(ctx, k):
             sc.add(f'mark sess{i}', *ls)
             if rng.random() < 0.2 and exp == 0:
                 sc.add('mark dbl_start', f'start {dA} {rng.choice([0, 1, 3, 7, 5000])}', 'mark dbl_start_end')     # start while running (any interval): must do nothing
-            sc.add('stop')
+            # the line may never fall silent: idle delimiters (or babble without any delimiter) arrive whenever nothing else does - also while the
+            # library shuts down, and during a start that fails because nobody answers
+            if rng.random() < 0.3:
+                sc.add(f'bus idlefill {rng.choice(["fe", "fe", "55", "00"])}')
+            sc.add('stop', 'bus idlefill off')
             if rng.random() < 0.3:
                 sc.add('mark dbl_stop', 'stop', 'mark dbl_stop_end')                # stop while stopped: must do nothing
             sessions.append((kind, exp, fi))
@@ -331,8 +335,19 @@ def evaluate(ctx, r, rf, cfg, nodes, sessions, mode, meta):
                 return
             hs = [x.get('heap') for x in seg if x.get('e') in ('call', 'ret') and 'heap' in x]
             if len(hs) >= 2 and hs[0] != hs[-1] and a == 'dbl_stop':
-                ctx.violation('not-idempotent', a + '-heap', f'stop while stopped changed the allocated bytes {hs[0]} -> {hs[-1]}', r.scenario, r.flavour, meta)
-                return
+                # the allocator statistic is process-wide (harness threads allocate too): a difference counts when the same scenario shows it again
+                again = runner.run_scenario(r.flavour, r.scenario, tag='c16-dblstop-again')
+                ev2 = again.events
+                i2 = [q for q, x in enumerate(ev2) if x.get('e') == 'mark' and x.get('m') == a]
+                rep = False
+                for q in i2:
+                    j2 = next((k for k in range(q, len(ev2)) if ev2[k].get('e') == 'mark' and ev2[k].get('m') == b), len(ev2))
+                    h2 = [x.get('heap') for x in ev2[q:j2] if x.get('e') in ('call', 'ret') and 'heap' in x]
+                    rep = rep or (len(h2) >= 2 and h2[0] != h2[-1])
+                if rep:
+                    ctx.violation('not-idempotent', a + '-heap', f'stop while stopped changed the allocated bytes {hs[0]} -> {hs[-1]} (reproduced in a second run)', r.scenario, r.flavour, meta)
+                    return
+                ctx.count('heap_differences_not_reproduced')
     # failed starts leave no thread alive
     for e in rets:
         if e.get('r') == 1 and e.get('live_threads') != 0:
